@@ -1561,7 +1561,7 @@ def ADC(
     V_min, V_max = shortest_int(signal, 99.99)
     
     dig_signal = np.round(
-        (signal - V_min) / (V_max - V_min) * (2**n - 1)
+        ((signal - V_min) / (V_max - V_min) * (2**n - 1)).clip(0, 2**n - 1) # saturate before the cast: a huge or infinite ratio (far outlier, zero-width range) has no integer value
     ).astype(int).clip(0, 2**n - 1)  # quantize signal between 0 and 2**n-1 (samples outside the range saturate)
     
     if otype == 'v':
